@@ -2013,6 +2013,13 @@ class MainProvider(ResolverMixin, BaseProvider):
                             continue
                         if result_role and prop.name.lower() != result_role:
                             continue
+                        # Dangling reference: The associated instance has been
+                        # deleted. Associators() cannot return it, so
+                        # AssociatorNames() does not return it either.
+                        assoc_store = self.cimrepository.get_instance_store(
+                            prop.value.namespace or namespace)
+                        if not assoc_store.object_exists(prop.value):
+                            continue
                         rtn_instpaths.add(prop.value)
         return rtn_instpaths
 
